@@ -1,6 +1,7 @@
 package sym
 
 import (
+	"fmt"
 	"math"
 	"regexp"
 	"strconv"
@@ -255,6 +256,9 @@ func pathKey(p []int) string {
 	return s
 }
 
+// Mutexes: the held state is tracked per mutex address (State.aux). Under the non-preemptive goroutine model a
+// goroutine that finds a mutex held cannot wait for the holder (which is suspended beneath it), so that schedule is
+// infeasible and the path is dropped (counted in stats); without any goroutine a second Lock is a self-deadlock.
 func lockIntrinsic(kind string) Intrinsic {
 	return func(e *Engine, st *State, args []Value, fn *ssa.Function) []Outcome {
 		p := args[0].(*PtrV)
@@ -263,6 +267,44 @@ func lockIntrinsic(kind string) Intrinsic {
 		}
 		if e.lockHook != nil {
 			e.lockHook(st, kind, p)
+		}
+		key := fmt.Sprintf("mu:%d:%v", p.Obj, p.Path)
+		held := int64(0) // >0: readers, -1: writer
+		if v, ok := st.aux[key]; ok {
+			held = int64(v.(*Term).Val)
+		}
+		blocked := func() []Outcome {
+			if e.goCounter == 0 {
+				return []Outcome{e.panicOut(st, "all goroutines are asleep - deadlock! (mutex locked twice)")}
+			}
+			e.stats.PrunedSchedules++
+			return nil
+		}
+		switch kind {
+		case "lock":
+			if held != 0 {
+				return blocked()
+			}
+			st.setAux(key, e.tb.Int64(-1))
+		case "unlock":
+			if held != -1 {
+				return []Outcome{e.panicOut(st, "sync: unlock of unlocked mutex")}
+			}
+			delAux(st, key)
+		case "rlock":
+			if held < 0 {
+				return blocked()
+			}
+			st.setAux(key, e.tb.Int64(held+1))
+		case "runlock":
+			if held <= 0 {
+				return []Outcome{e.panicOut(st, "sync: RUnlock of unlocked RWMutex")}
+			}
+			if held == 1 {
+				delAux(st, key)
+			} else {
+				st.setAux(key, e.tb.Int64(held-1))
+			}
 		}
 		return one(st, nil)
 	}
